@@ -84,6 +84,8 @@ type Exec struct {
 	hidden     map[string]interface{}
 	tags       []tagCond
 	pcSet      map[string]bool
+	curThread  int
+	events     []raceEvent
 	modelCtx   *bctx
 	lenModel   map[string]*Term
 	guess      map[string]string
@@ -2286,6 +2288,9 @@ func (e *Exec) keyEq(a, b Value) *Term { return e.valueEq(a, b) }
 
 // mapFind returns the index of the entry whose key equals k on this path (forking), or -1.
 func (e *Exec) mapFind(m *MapVal, k Value) int {
+	if e.curThread != 0 {
+		e.recordAccess("R", fmt.Sprintf("map%d", m.id))
+	}
 	for i := range m.keys {
 		c := e.keyEq(m.keys[i], k)
 		if e.branch(c) {
@@ -2321,6 +2326,9 @@ func (e *Exec) mapUpdate(m *MapVal, k, v Value) {
 		e.panicHere("assignment to entry in nil map")
 	}
 	i := e.mapFind(m, k)
+	if e.curThread != 0 {
+		e.recordAccess("W", fmt.Sprintf("map%d", m.id))
+	}
 	if i >= 0 {
 		m.vals[i] = v
 		return
@@ -2345,6 +2353,9 @@ func (e *Exec) mkRange(x Value) Value {
 	case *Term:
 		return &IterVal{str: a, pos: mkInt(0)}
 	case *MapVal:
+		if e.curThread != 0 {
+			e.recordAccess("R", fmt.Sprintf("map%d", a.id))
+		}
 		return &IterVal{m: a, keys: append([]Value{}, a.keys...), vals: append([]Value{}, a.vals...)}
 	}
 	e.unsupported("range over %T", x)
